@@ -103,7 +103,9 @@ def measure(ctx, ty, dtype, per_cell):
                 if all(v == 0 for v in xi[0:3]):
                     e["err_trans"] = 0 if all(v == 0 for v in Xi[0:3].tolist()) else R.CAP
                 else:
-                    e["err_trans"] = R.block_err(Mi, Mr, range(3), [3], eps)
+                    # relative to max(|t_ref|, |tau|): where V(phi, sigma) tau cancels (theta near 2 pi k, tau nearly
+                    # orthogonal to the axis) the result is much smaller than the input and only the input scale is fair
+                    e["err_trans"] = R.block_err(Mi, Mr, range(3), [3], eps, floor=max(abs(mp.mpf(v)) for v in xi[0:3]))
             else:
                 e["err_trans"] = 0
             e["err_unit"] = R.unit_err(Xi[off:off + 4].tolist(), eps)
